@@ -773,6 +773,7 @@ class Gen:
         self.dtypes = dtypes
         self.leaf_srcs = leaf_srcs or ["asarray", "asarray", "from_array", "from_zarr"]
         self.rejected = 0
+        self.rollbacks = 0
         self.maxsize = 1500
         self.allow_zero = allow_zero
         self.maxblocks = 60
@@ -852,6 +853,11 @@ class Gen:
                 ok = self.add_random_op()
             except NumpyReject:
                 ok = False
+            except (KeyError, TypeError, IndexError, ValueError, AttributeError):
+                # a helper node of this candidate was itself rejected (too large, NumPy refused it, ...):
+                # the candidate is dropped and rolled back; only NumPy is involved in generation
+                ok = False
+                self.rollbacks += 1
             if ok:
                 done += 1
             else:
